@@ -1,8 +1,9 @@
 """C05 — propagation removes only unsupported values; fails only if nothing is left."""
 import itertools
 from ..core import Family
-from .. import plevel
+from .. import plevel, plevel_global
 
+PROPERTY_FILES = ["C05", "C05_Global"]
 TRUSTED_BASE = [
     "Coq 8.16.1 kernel (coqc full .vo build)",
     "hand-written model of props/*.rs, views.rs, agenda.rs, search::propagate (coq/Model/{Dom,Views,PropDefs,Propagate}.v, Model/Props/*.v): modelled, not verified; tied by this run's differential",
@@ -66,7 +67,30 @@ def gen_random(tier, rng):
         cases.append(c)
     return cases
 
+def gen_exhaustive_global(tier, rng):
+    return plevel_global.exhaustive_cases(tier, plevel.subsets)
+
+def gen_random_global(tier, rng):
+    n = 6000 if tier == "quick" else 150000
+    kinds = plevel.BASIC_KINDS + plevel.GLOBAL_KINDS * 3
+    cases = []
+    for _ in range(n):
+        nv, doms, props = plevel.rand_model(rng, kinds=kinds, maxprops=3)
+        if not props: continue
+        c = " ; ".join(["|".join(doms)] + props)
+        if rng.random() < 0.3: c += " ; sched %d" % rng.randint(1, 10**6)
+        cases.append(c)
+    return cases
+
+def nontrivial_prune1(case, impl):
+    return impl == "fail" or not impl.endswith("ev=-")
+
 FAMILIES = [
     Family("exhaustive_domains", "prop", gen_exhaustive, nontrivial=nontrivial, prop_judge=plevel.judge_prop, exhaustive=True),
     Family("random_models", "prop", gen_random, nontrivial=nontrivial, prop_judge=plevel.judge_prop),
+    Family("exhaustive_domains_global", "prop", gen_exhaustive_global, nontrivial=nontrivial, prop_judge=plevel.judge_prop, exhaustive=True),
+    Family("random_models_global", "prop", gen_random_global, nontrivial=nontrivial, prop_judge=plevel.judge_prop),
+    # one call of prune per propagator, events included (no propagation loop): correspondence only
+    Family("single_prune_global", "prune1", gen_exhaustive_global, nontrivial=nontrivial_prune1, exhaustive=True),
+    Family("single_prune_random_global", "prune1", gen_random_global, nontrivial=nontrivial_prune1),
 ]
